@@ -321,6 +321,22 @@ func TestFileDir() string {
 }
 func Symbolic() bool { return false }
 
+// Calibrate states an assumption of a white-box harness about an unexported function it calls
+// directly (which parameter plays which role). If it does not hold on this tree the harness does
+// not apply: the run is reported as inapplicable / inconclusive, never as a violation.
+func Calibrate(ok bool, what string) {
+	if !ok {
+		out.Inapplicable = "harness calibration failed: " + what
+		panic(stop{"calibration: " + what})
+	}
+}
+
+// Stress reports whether this is a stress replay (a schedule counterexample being repeated).
+func Stress() bool {
+	v := os.Getenv("VX_STRESS")
+	return v != "" && v != "0" && v != "1"
+}
+
 // Stagger (stress replays only) delays the calling goroutine by a random time of up to 10 ms, so
 // that goroutines started together begin their work in a random order and at random distances.
 func Stagger() {
